@@ -138,6 +138,17 @@ static int on_wkey(TickitWindow *w, TickitEventFlags fl, void *info, void *data)
   h->depth--;
   return h->ret;
 }
+/* the window whose DESTROY handlers are running (innermost), or -1 */
+static int dying_win = -1;
+static int on_wdestroy_calls(TickitWindow *w, TickitEventFlags fl, void *info, void *data)
+{
+  if(!(fl & TICKIT_EV_DESTROY)) return 0;
+  int was = dying_win;
+  dying_win = widx(w);
+  int r = on_wkey(w, fl, info, data);
+  dying_win = was;
+  return r;
+}
 static int on_wmouse(TickitWindow *w, TickitEventFlags fl, void *_info, void *data)
 {
   struct hdata *h = data;
@@ -189,7 +200,12 @@ static void trace_op(const char *op)
 static void w_op(const char *op, int depth)
 {
   const char *s = op + 1;
-  if(op[0] == 'b') { char t[24]; size_t n = strcspn(op, "."); if(n > 20) n = 20; memcpy(t, op, n); t[n] = 0; trace_op(t); }
+  /* a DESTROY handler is handed its window: what it does WITH THAT WINDOW (other than touching its reference count,
+   * closing it or creating windows below it) is covered by the handler's contract, not by a reference of the client's:
+   * such calls are made but are not part of the trace that the discipline judges */
+  int own = dying_win >= 0 && strchr("shtxgyqzPpNS", op[0]) && atoi(op + 1) == dying_win;
+  if(own) ;
+  else if(op[0] == 'b') { char t[24]; size_t n = strcspn(op, "."); if(n > 20) n = 20; memcpy(t, op, n); t[n] = 0; trace_op(t); }
   else if(op[0] != '-') trace_op(op);
   switch(op[0]) {
     case 'n': { int p = p_int(&s), f = p_int(&s);
@@ -216,7 +232,7 @@ static void w_op(const char *op, int depth)
         case 'r': w_emit_mouse(TICKIT_MOUSEEV_RELEASE); break;
         case 'w': w_emit_mouse(TICKIT_MOUSEEV_WHEEL); break;
       } break;
-    case 'b': {   /* b<i>.<k|m|e|f|g>.<maskhex>.<ret>.<actions> */
+    case 'b': {   /* b<i>.<k|m|e|f|g|d>.<maskhex>.<ret>.<actions> */
       int i = p_int(&s);
       struct hdata *h = malloc(sizeof *h);
       h->kind = *s++; if(*s == '.') s++;
@@ -232,6 +248,8 @@ static void w_op(const char *op, int depth)
         case 'e': h->cid = tickit_window_bind_event(W[i], TICKIT_WINDOW_ON_EXPOSE, 0, &on_wkey, h); break;
         case 'f': h->cid = tickit_window_bind_event(W[i], TICKIT_WINDOW_ON_FOCUS, 0, &on_wkey, h); break;
         case 'g': h->cid = tickit_window_bind_event(W[i], TICKIT_WINDOW_ON_GEOMCHANGE, 0, &on_wkey, h); break;
+        /* DESTROY handlers that make calls are not modelled: such cases are judged by the discipline on the trace only */
+        case 'd': h->cid = tickit_window_bind_event(W[i], TICKIT_WINDOW_ON_DESTROY, 0, &on_wdestroy_calls, h); break;
         default: printf("ERR handler-kind %s\n", op); fflush(stdout); _exit(0);
       }
       break; }
